@@ -491,6 +491,13 @@ pub fn work_dir() -> PathBuf {
     p
 }
 
+/// temp dir for code under test that uses std::env::temp_dir (kept inside the harness work dir)
+pub fn tmp_dir() -> PathBuf {
+    let p = work_dir().join("tmp");
+    let _ = std::fs::create_dir_all(&p);
+    p
+}
+
 fn self_exe() -> PathBuf {
     std::env::current_exe().unwrap()
 }
@@ -549,6 +556,7 @@ pub fn supervise(
             .arg(skip_s.join(","))
             .env("RAYON_NUM_THREADS", "1")
             .env("TZ", "UTC")
+            .env("TMPDIR", tmp_dir())
             .stdin(std::process::Stdio::null())
             .stdout(std::process::Stdio::null())
             .stderr(errf)
